@@ -153,6 +153,51 @@ theorem rest_flags (f : Flags) : prepareQuery (toForm f) = (flagClauses f).map t
   simp only [h1, h2, h3, h4, h5, h6, maybeAdd]
   cases gv <;> cases gver <;> cases gt <;> cases np <;> cases nf <;> cases ne <;> rfl
 
+/-- **Round trip of the grammar.**  For every non-empty list of well-formed clauses — any query field,
+any of the four operators, any `int`, any non-empty string (quotes, operator bytes, spaces inside
+included) or query-field reference, as long as no clause can be mistaken for two (`sepFree`) —
+`NewFromString` reads the rendered filter string back as exactly those clauses, in order. -/
+theorem parse_render (q : List Clause) (hne : q ≠ []) (h : ∀ c ∈ q, WfClause c) :
+    newFromString (render q) = .ok (q.map toFilter) := by
+  have hq : QueryFieldsOk := by decide
+  have hval : ∀ c ∈ q, WfVal c.value := by
+    intro c hc
+    have := (h c hc).2.1
+    cases hv : c.value <;> rw [hv] at this <;> exact this
+  have hraw : rawFilters (render q) = q.map renderClause := by
+    apply rawFilters_render
+    intro c hc
+    refine ⟨(h c hc).2.2, ?_⟩
+    have hf := (hq c.field (h c hc).1).1
+    unfold renderClause
+    cases hfc : c.field with
+    | nil => exact absurd hfc hf
+    | cons x xs => simp
+  have hall : parseAll (q.map renderClause) = .ok (q.map toFilter) :=
+    parseAll_map q fun c hc => parse_renderClause hq c (h c hc).1 (hval c hc)
+  unfold newFromString
+  rw [hraw, hall]
+  cases q with
+  | nil => exact absurd rfl hne
+  | cons c q => rfl
+
+/-- a leading `+` is accepted by `strconv.Atoi` and denotes the same integer (not produced by `render`) -/
+theorem plus_sign_accepted (n : Nat) (h : n < 2 ^ 63) : atoi (0x2b :: natDigits n) = some (n : Int) := by
+  have hd := digitsAcc_natDigits n
+  have : (natDigits n).isEmpty = false := by cases hh : natDigits n <;> simp_all [natDigits_ne_nil]
+  unfold atoi
+  simp [this, hd, h]
+
+/-- **C03, browser side.**  For a filter string of the grammar (the rendering of well-formed clauses),
+the browser's listing is exactly the stored servers with status `master`, refreshed no earlier than
+`now − liveness`, that satisfy every clause. -/
+theorem C03_main (recs : List Record) (now liveness : Int) (q : List Clause) (hne : q ≠ [])
+    (h : ∀ c ∈ q, WfClause c) :
+    listServers recs now liveness Facts.statusMaster (browserQuery (render q)) =
+      recs.filter fun r => selected now liveness Facts.statusMaster q (toServer r) := by
+  rw [wellformed_is_used _ _ (parse_render q hne h)]
+  exact selection_eq_filter recs now liveness _ (required_in_scope _ (by decide)) q
+
 /-- the REST listing is the specification's selection for the flags' clauses and status `info` -/
 theorem rest_listing (recs : List Record) (now liveness : Int) (f : Flags) :
     listServers recs now liveness Facts.statusInfo (prepareQuery (toForm f)) =
@@ -174,5 +219,7 @@ end Swat4.C03
 example : Swat4.FilterSpec.WfClause ⟨Swat4.FilterSpec.fNumplayers, .ne, .fld Swat4.FilterSpec.fMaxplayers⟩ := by decide
 /-- non-vacuity: `gamevariant='SWAT 4'` (a string with a space) is a well-formed clause -/
 example : Swat4.FilterSpec.WfClause ⟨Swat4.FilterSpec.fGamevariant, .eq, .str [0x53, 0x57, 0x41, 0x54, 0x20, 0x34]⟩ := by decide
+/-- non-vacuity: a string with quotes, an operator byte and the word "and" inside is well-formed -/
+example : Swat4.FilterSpec.WfClause ⟨Swat4.FilterSpec.fGametype, .ne, .str [0x69, 0x74, 0x27, 0x73, 0x3d, 0x61, 0x6e, 0x64]⟩ := by decide
 /-- non-vacuity: the frontends' statuses satisfy the hypothesis of `selection_eq_filter` -/
 example : ∀ b ∈ Swat4.Filter.bitsOf Swat4.Facts.statusMaster, b ∈ Swat4.Facts.statusMembers := by decide
